@@ -83,7 +83,7 @@ def compare_value_arrays(Vimpl, Vmodel, n_periods, tol=None):
 # ======================================================================================
 # simulation
 # ======================================================================================
-def init_impl(mj, init, int_cont=False):
+def init_impl(mj, init, int_cont=False, narrow=False):
     """harness initial states {state: [Fr...]} -> dict of jnp arrays (ints for discrete states).
     `int_cont`: continuous states whose initial values are all integers are passed with an integer dtype
     (a legal input: upstream's own tests pass `jnp.array([0, 4])` for wealth)."""
@@ -91,7 +91,12 @@ def init_impl(mj, init, int_cont=False):
     G = dict((k, g) for k, g in mj["states"])
     out = {}
     for s, vals in init.items():
-        if G[s]["k"] == "disc":
+        if narrow and G[s]["k"] == "disc":
+            # the dtypes a data set delivers (pandas categorical codes are int8, many columns are float32)
+            out[s] = I.jnp.array([int(v) for v in vals], dtype=I.jnp.int8)
+        elif narrow and all(float(I.np.float32(float(v))) == float(v) for v in vals):
+            out[s] = I.jnp.array([float(v) for v in vals], dtype=I.jnp.float32)
+        elif G[s]["k"] == "disc":
             out[s] = I.jnp.array([int(v) for v in vals])
         elif int_cont and all(Fr(v).denominator == 1 for v in vals):
             out[s] = I.jnp.array([int(v) for v in vals])
